@@ -250,6 +250,28 @@ def r17_5(run):
         before = [s for s in se if r in g.reachable([x for _, x in s.succ])]
         run.ob('R17.5', init, r.ast, 'invalid option combinations are refused before anything is started', not before, slot='refuse-first:%s' % src(r.ast)[:50],
                message='__init__ can raise %s after %s' % (src(r.ast)[:40], [src(s.ast)[:40] for s in before]))
+    # a refusal looks at the final value of what it tests: no option is (re)computed after a test that refuses it
+    # (the deprecated stealth_auth= is turned into auth= before auth is validated)
+    kk = 0
+    for r in raises:
+        for t in g.live:
+            if t.kind != 'test' or not any(g.edge_dominates(t, lab, r) for lab in ('T', 'F')):
+                continue
+            names = set(x.id for x in ast.walk(t.ast) if isinstance(x, ast.Name) and x.id in init.params)
+            after = g.reachable([x for _, x in t.succ], follow_exc=False)
+            for n in after:
+                if n.kind == 'stmt' and isinstance(n.ast, (ast.Assign, ast.AugAssign)):
+                    hit = names & set(assigned_targets(n.ast))
+                    # clearing a consumed deprecated argument is not a recomputation
+                    # a test inside the same conditional block as the definition belongs to that normalisation step
+                    shared = any(g.edge_dominates(t2, lab, t) and g.edge_dominates(t2, lab, n)
+                                 for t2 in g.live if t2.kind == 'test' and t2 is not t for lab in ('T', 'F'))
+                    if hit and not is_none(n.ast.value) and not shared:
+                        run.ob('R17.5', init, n.ast, 'an option is not recomputed after the test that validates it', False, slot='late-definition:%s' % sorted(hit)[0],
+                               message='__init__ tests %s and only afterwards sets %s = %s: the refusal never sees that value, so the invalid combination is accepted '
+                                       'and fails only once a listener is open' % (src(t.ast)[:50], sorted(hit)[0], src(n.ast.value)[:40]))
+            kk += 1
+    run.floor('R17.5', 'validation tests examined for late definitions', kk, 4)
     # the documented refusals exist
     combos = {'stealth+ephemeral': ("AuthStealth", 'ephemeral'), 'dir+ephemeral': ('hidden_service_dir is not None', 'ephemeral'),
               'key+filesystem': ('private_key is not None', 'not ephemeral'), 'single_hop+filesystem': ('single_hop', 'not ephemeral'),
@@ -312,6 +334,7 @@ RULES = [
 from ..selftest import M  # noqa: E402
 F = 'txtorcon/endpoints.py'
 MUTANTS = [
+    M('stealth-normalised-late', F, ["        # backwards-compatibility for stealth_auth= kwarg\n        if stealth_auth is not None:\n            log.msg(\"'stealth_auth' is deprecated; use auth= instead\")\n            if auth is not None:\n                raise ValueError(\n                    \"Both stealth_auth= and auth= passed; use auth= only for new code\"\n                )\n            auth = AuthStealth(stealth_auth)\n            stealth_auth = None\n\n", "        self._reactor = reactor\n        self._config = defer.maybeDeferred(lambda: config)"], ["", "        if stealth_auth is not None:\n            if auth is not None:\n                raise ValueError('both')\n            auth = AuthStealth(stealth_auth)\n            stealth_auth = None\n        self._reactor = reactor\n        self._config = defer.maybeDeferred(lambda: config)"], ['R17.5']),
     M('config-bootstrap-not-awaited', F, "        yield self._config.post_bootstrap\n", "        self._config.post_bootstrap\n", ['R17.6']),
     M('bind-all-interfaces', F, "'tcp:0:interface=127.0.0.1',", "'tcp:0',", ['R17.1']),
     M('bind-any', F, "'tcp:0:interface=127.0.0.1',", "'tcp:0:interface=0.0.0.0',", ['R17.1']),
